@@ -87,6 +87,13 @@ def templates3d(tier):
         tpl("box", (5, 5, 0), (1.5, 1.5, 1), name="box straddling the 90 edge"),
         tpl("box", (0, 6, 0), (2, 1, 1), occ=[body((-1, 3, 0), (0.5, 0.5, 1))], name="box partly hidden"),
         tpl("box", (3, 5, 1), (1, 0.5, 1.5), (1, 1, 0), occ=[behind], name="rotated box ahead-right, occluder behind the camera"),
+        # large / elongated occluders whose CENTRE is outside the visible distance (and outside a 90 degree
+        # cone) while part of the body crosses the sight line well inside it
+        tpl("pt", (0.25, 7.5, 0.25), occ=[body((14, 4, 0), (16, 0.5, 3))], name="long wall across the sight line, centre far to the right"),
+        tpl("pt", (0.25, 5.5, 0.75), occ=[body((0, 3, 15), (16, 3, 0.5), (0, 1, 0)), beyond], name="tall slab across the sight line, centre far above"),
+        tpl("pt", (4.25, 3.5, 0.25), occ=[body((1.5, -14, 0), (20, 0.5, 3), (1, 0, 0))], name="long wall mostly behind the viewer, target beyond its front end"),
+        tpl("pt", (0.25, 5.5, 0.25), occ=[body((0, 11.5, 0), (4, 5, 4)), body((-13, 3, 0), (16, 0.5, 3))], name="thick slab containing the far range boundary (target in front), then a long wall from the left"),
+        tpl("box", (0, 6, 0), (0.5, 0.75, 0.25), (1, 0, 0), occ=[body((-14, 3, 0), (0.5, 16, 6), (1, 0, 0))], name="box walled off by a long wall, centre far to the left", dens=1),
     ]
     if tier == "thorough":
         T += [
@@ -133,7 +140,7 @@ def rotations3d(tier, rng):
     ident, rest = cube[0], cube[1:]
     if tier == "quick":
         rng.shuffle(rest)
-        rest = rest[:5]
+        rest = rest[:4]
         pyth = rng.sample(PYTH_R3, 2)
     else:
         pyth = PYTH_R3
@@ -158,6 +165,7 @@ def templates2d():
         tpl("box", (0, 14, 0), (1, 1, 1), name="2D box too far"),
         tpl("box", (5, 5, 0), (1.5, 1.5, 1.5), name="2D box straddling the 90 edge"),
         tpl("box", (0.5, 10.5, 0), (1, 1, 1), name="2D box between the distances"),
+        tpl("pt", (0.25, 7.5, 0), occ=[body((14, 4, 0), (16, 0.5, 16))], name="2D long wall across the sight line, centre far to the right"),
     ]
 
 
